@@ -58,6 +58,11 @@ def gen(tape: Tape, tier: str) -> dict:
     if r < 2:
         case = gen_scan_case(tape, max_blocks=6)
         case["api"] = "groupby_scan"
+    elif r == 9:
+        from ..redcase import gen_multi_by_case
+
+        case = gen_multi_by_case(tape)
+        case["api"] = "groupby_reduce"
     else:
         case = gen_reduce_case(
             tape,
